@@ -68,7 +68,7 @@ Interpreter::Interpreter(bool debug)
         this, common_operations_.get());
 
     // enum管理サービスを初期化
-    enum_manager_ = std::make_unique<EnumManager>();
+    enum_manager_ = std::make_unique<EnumManager>(this);
 
     // static変数管理サービスを初期化
     static_variable_manager_ = std::make_unique<StaticVariableManager>(this);
